@@ -229,6 +229,10 @@ func printWrappedLine(keyColor, key, value string) {
 // wrapText splits the input text into lines of at most `width` characters each.
 func wrapText(text string, width int) []string {
 	var lines []string
+	if width < 1 {
+		// the key alone is wider than the box: do not wrap
+		return []string{text}
+	}
 	for len(text) > width {
 		lines = append(lines, text[:width])
 		text = text[width:]
